@@ -10,7 +10,7 @@ def eq(a,b):
     a=np.asarray(a); b=np.asarray(b)
     if a.dtype==object or b.dtype==object: return False
     return a.shape==b.shape and np.array_equal(a,b,equal_nan=True)
-for it in range(40000):
+for it in range(int(__import__("os").environ.get("RECON_N", 40000))):
     lens = rand_lengths(); n=sum(lens)
     d1 = random.choice(dts)
     a = rand_data(n,d1); ra = RaggedArray(a.copy(), lens); rows = split(a,lens)
